@@ -30,8 +30,10 @@ type GenOpts struct {
 	Big bool
 }
 
-func QuickOpts() GenOpts    { return GenOpts{MaxDepth: 4, MaxElems: 5, Budget: 14, MaxStr: 80, Big: true} }
-func ThoroughOpts() GenOpts { return GenOpts{MaxDepth: 40, MaxElems: 12, Budget: 60, MaxStr: 700, Big: true} }
+func QuickOpts() GenOpts { return GenOpts{MaxDepth: 4, MaxElems: 5, Budget: 14, MaxStr: 80, Big: true} }
+func ThoroughOpts() GenOpts {
+	return GenOpts{MaxDepth: 40, MaxElems: 12, Budget: 60, MaxStr: 700, Big: true}
+}
 
 var intBoundaries = []int64{0, 1, -1, 23, 24, -24, -25, 127, 128, -128, -129, 255, 256, -256, -257,
 	32767, 32768, -32768, -32769, 65535, 65536, -65536, -65537,
